@@ -129,6 +129,7 @@ type World struct {
 	journal []JournalRec
 	idleRounds int
 	finishing  bool
+	stopOnClass string
 	s2         bool // scenario S2: one real server, the simulator plays its peers
 }
 
@@ -171,6 +172,23 @@ func (w *World) violate(prop, class, format string, a ...any) *Violation {
 	v.Facts["store_flavour"] = fmt.Sprint(w.cfg.StoreFlavour)
 	v.Facts["restore_committed_logs"] = fmt.Sprint(w.cfg.StoreFlavour == FlavourCommitTracking && w.cfg.RestoreCommittedLogs)
 	v.Facts["disk_errors_injected"] = fmt.Sprint(w.stats.Faults["disk_full_error"]+w.stats.Faults["disk_op_error"] > 0)
+	if w.debug != nil && (strings.HasPrefix(class, "C12/no-conv") || strings.HasPrefix(class, "C17/")) {
+		for _, l := range w.sim.Dump() {
+			fmt.Fprintln(w.debug, "   G "+l)
+		}
+		for _, n := range w.nodes {
+			if n.inc != nil && n.inc.r != nil {
+				r := n.inc.r
+				_, ci, latest, li := r.VerifConfigurations()
+				fmt.Fprintf(w.debug, "   N %s alive=%v state=%v term=%d last=%d commit=%d applied=%d cfg=%d/%d{%s} disk=[%d,%d] snap=%d\n", n.inc.tag, n.inc.alive, r.State(), r.CurrentTerm(),
+					r.LastIndex(), r.CommitIndex(), r.AppliedIndex(), ci, li, idsOf(latest), n.disk.first, n.disk.last, n.disk.snapIndex())
+			}
+		}
+	}
+	if w.stopOnClass != "" && class == w.stopOnClass {
+		w.ended = true
+		w.maxViol = 0
+	}
 	w.viol = append(w.viol, v)
 	w.event("VIOLATION %s %s: %s", prop, class, v.Msg)
 	return &w.viol[len(w.viol)-1]
@@ -262,6 +280,9 @@ func (w *World) boot(n *Node, bootstrap *raft.Configuration) *Inc {
 	inc := &Inc{node: n, n: n.incN, tag: fmt.Sprintf("%s#%d", n.id, n.incN), alive: true, booting: true,
 		notifyCh: make(chan bool, w.cfg.NotifyBuf), deadCh: make(chan struct{})}
 	n.inc = inc
+	if bootstrap != nil {
+		n.needBootstrap = bootstrap // until it has succeeded, every start-up retries it
+	}
 	n.everBooted = true
 	n.restartAt = time.Time{}
 	inc.bootSeq = w.sim.Tick()
@@ -274,17 +295,17 @@ func (w *World) boot(n *Node, bootstrap *raft.Configuration) *Inc {
 		inc.fsm = newSimFSM(w, inc)
 		inc.trans = w.net.newTransport(inc)
 		ls, ss, snaps := w.newStores(inc)
-		if bootstrap != nil {
-			if err := raft.BootstrapCluster(conf, ls, ss, snaps, inc.trans, *bootstrap); err != nil && err != raft.ErrCantBootstrap {
+		if n.needBootstrap != nil {
+			if err := raft.BootstrapCluster(conf, ls, ss, snaps, inc.trans, *n.needBootstrap); err != nil && err != raft.ErrCantBootstrap {
 				inc.bootErr = fmt.Errorf("bootstrap: %w", err)
 				inc.booting = false
 				w.event("boot %s failed: %v", inc.tag, inc.bootErr)
-				n.needBootstrap = bootstrap
 				w.crashNow(n, "BootstrapCluster error")
 				n.restartAt = time.Now().Add(w.cfg.ElectionTimeout)
 				inc.checkAlive()
 				return
 			}
+			inc.checkAlive()
 			n.needBootstrap = nil
 		}
 		inc.imageAtBoot = w.or.captureBootImage(n)
@@ -433,6 +454,14 @@ func (w *World) onPanic(p simrt.PanicInfo) {
 // pollStep runs the cheap step invariants over the public getters of every node.
 func (w *World) pollStep() {
 	w.or.poll()
+	// a server that shut itself down (ShutdownOnRemove) is a process that has exited: the
+	// operator restarts it later, like after a crash
+	for _, n := range w.nodes {
+		if inc := n.inc; inc != nil && inc.alive && inc.r != nil && !inc.shutdown && !w.finishing && inc.r.State() == raft.Shutdown {
+			w.crashNow(n, "server shut itself down")
+			n.restartAt = time.Now().Add(w.cfg.ElectionTimeout * time.Duration(2+w.ch.Choose(simrt.SFault, 20)))
+		}
+	}
 	// restart crashed nodes whose time has come
 	now := time.Now()
 	for _, n := range w.nodes {
